@@ -4,6 +4,10 @@ C07 — link reference definitions: position-independent, first wins, case-folde
 Units: `label.normalize` (real core_tokens.normalize_label vs the Lean model: every code point
 singly, label spellings, random strings), `block.footnotes` (real Document.footnotes - keys,
 values and insertion order - vs `footnotesOf` of the generator's definitions in document order).
+Theorems: Props/C07.lean (first wins, normalisation, two-phase parse) and Props/C07_Order.lean (the order in which
+definitions are registered is document pre-order, at every depth; position independence).  Unit `c07.order`: the
+conclusion of C07_table_is_document_order on the REAL block phase - the definitions handed to append_footnotes, in call
+order, must be the Footnote entries of the real parse buffer in pre-order.
 Exploration: generated documents that place definitions at every kind of block boundary and
 nesting level (alone or in runs of consecutive lines), with duplicate / near-duplicate labels, all reference forms and title styles; the
 oracle is the generator's own table.
@@ -17,6 +21,7 @@ import impl
 from common import driver_batch
 
 ID = 'C07'
+EXTRA_MODULES = ['Mistletoe.Proofs.DefOrder']
 RULE = ('generated documents: blocks (paragraphs, ATX and setext headings, table cells, quotes, list items nested to depth 3) '
         'carrying uniquely tagged reference uses in full / collapsed / shortcut form for links and images; definitions '
         'placed before or after their uses at top level or inside quotes and list items, with duplicate and near-'
@@ -25,11 +30,11 @@ RULE = ('generated documents: blocks (paragraphs, ATX and setext headings, table
         'has >= 2 definitions or a definition is nested or follows its use')
 TRUSTED = ['str.casefold is taken as the Unicode case fold of the specification (table regenerated from the interpreter)']
 ASSUMPTIONS = ['definitions are placed at block boundaries (a definition cannot interrupt a paragraph)']
-PARTIAL = ['the two-phase parse is proved over the whole-document model (C07_two_phase: every inline tokenization of '
-           'Document(lines), at any depth, is given the one table built from all definitions the block phase collected; '
-           'C07_definitions_no_token); that the ORDER in which append_footnotes is called is document order is not proved '
-           '(definitions carry no ghost position in the model): tied by the block.buffer correspondence (definitions in call '
-           'order) and explored over all placements']
+PARTIAL = ['proved over the whole-document model: one table for all inline content (C07_two_phase), built from the definition '
+           'entries of the parse buffer in document (pre-)order at every nesting depth (C07_table_is_document_order, '
+           'C07_first_in_document_order, C07_position_independent), first definition wins, unresolved labels resolve to '
+           'nothing; that a reference in the TEXT reaches `resolve` with its label and stays literal when it resolves to '
+           'nothing is the inline parser (match_link_image), tied by the inline/doc units and explored over all placements']
 
 FAMILIES = [['foo', 'Foo', 'FOO', 'fOo'], ['bar baz', 'Bar  Baz', 'BAR\tBAZ', 'bar baz'], ['ß', 'ẞ', 'SS', 'ss', 'Ss'],
             ['ΑΓΩ', 'αγω', 'Αγω'], ['x1', 'X1'], ['toto', 'ToTo'], ['é', 'É'], ['a.b-c', 'A.B-C']]
@@ -232,6 +237,28 @@ def units(ctx):
     model = driver_batch(reqs)
     for case, e, m in zip(meta, exp, model):
         ctx.compare('block.footnotes', case, m, e)
+    # the theorem's conclusion on the real block phase
+    import block_units
+    for k, c in enumerate(cases):
+        rname = ['HtmlRenderer', 'MarkdownRenderer'][k % 2]
+        res, _types = block_units.real_block_phase(rname, {}, block_units.lines_of(c['text']))
+        if 'buffer' not in res:
+            continue
+        ctx.compare('c07.order', {'text': c['text'], 'renderer': rname}, defs_of_buffer(res['buffer']), res['defs'], kind=rname)
+
+
+def defs_of_buffer(buf):
+    """the definition matches of a real parse buffer (block_units' canonical JSON) in pre-order"""
+    out = []
+    for name, payload, _ln in buf[0]:
+        if name in ('Footnote', 'LinkReferenceDefinitionBlock'):
+            out += [list(m) for m in payload]
+        elif name == 'Quote':
+            out += defs_of_buffer(payload)
+        elif name == 'List':
+            for item in payload:
+                out += defs_of_buffer(item[0])
+    return out
 
 
 def explore(ctx, seeds):
